@@ -47,6 +47,43 @@ def _tiny(prof, ver, level, fields, body, width=4, eos_npo="zero"):
     return vb.assemble(units)[0]
 
 
+def _first_ppo(data, v):
+    return data[:9] + vb.u32(v) + data[13:]
+
+
+def _noisy_minimal():
+    """the minimal lossy HQ configuration (default quantisation matrix, qindex > 0) on high-contrast noise"""
+    import random
+    from .. import corpus
+
+    rnd = random.Random(99)
+    cf = dict(corpus._features())["hq_minimal"]
+    pics = corpus._pictures(cf, 2, rnd)
+    for p in pics:
+        for c in ("Y", "C1", "C2"):
+            p[c] = [[rnd.choice([0, 255]) for _ in row] for row in p[c]]
+    return corpus.encode_pics(cf, pics)
+
+
+def _default_then_custom_qm():
+    """one sequence: a picture using the DEFAULT quantisation matrix followed by one with a CUSTOM matrix for the
+    same wavelet/depth (a decoder that let the custom matrix overwrite the shared default table would dequantise
+    every later default-matrix picture -- also in later sequences -- with the wrong matrix)"""
+    import random
+    from .. import corpus
+    from vc2_conformance.codec_features import CodecFeatures
+
+    rnd = random.Random(7)
+    base = dict(corpus._features())["hq_minimal"]
+    parts = []
+    for i, qm in enumerate((None, {0: {"LL": 3}, 1: {"HL": 7, "LH": 7, "HH": 9}})):
+        cf = CodecFeatures(base, quantization_matrix=qm)
+        pics = corpus._pictures(cf, 1, rnd)
+        pics[0]["pic_num"] = i
+        parts.append(corpus._units(corpus.encode_pics(cf, pics)))
+    return corpus.fix_offsets(b"".join(parts[0][:-1] + parts[1][1:-1] + [parts[0][-1]]))
+
+
 def archetypes():
     """[(name, bytes)] : conformant archetypes first, then non-conformant ones"""
     global _ARCH
@@ -76,7 +113,10 @@ def archetypes():
     real = dict(corpus.base_streams())
     for n in ("hq_minimal", "ld_fragments", "hq_420_fields", "hq_lossless"):
         A.append(("encoder_" + n, real[n]))
+    A.append(("default_then_custom_quant_matrix", _default_then_custom_qm()))
+    A.append(("encoder_hq_minimal_noisy", _noisy_minimal()))
     B = [
+        ("BAD_first_previous_offset_13", _first_ppo(_tiny("HQ", 2, 0, False, P(0, 1)), 13)),
         ("BAD_version_too_high", _tiny("HQ", 3, 0, False, P(0))),
         ("BAD_odd_fields", _tiny("HQ", 2, 0, True, P(0, 1, 2))),
         ("BAD_nonconsecutive", _tiny("LD", 1, 0, False, P(0, 2))),
@@ -142,7 +182,7 @@ def run(ctx):
     cases = [c for c in cases if c["list"]]
     if ctx.quick:
         # all pairs, and every triple whose middle element is one of 6 state-rich archetypes
-        rich = {1, 3, 5, 7, 8}
+        rich = {1, 3, 5, 7, 8, 19}
         cases = [c for c in cases if len(c["list"]) <= 2 or c["list"][1] in rich]
     outs = common.pmap(exec_list, [(c["list"], None) for c in cases])
     nviol = 0
